@@ -30,7 +30,7 @@ CHECKS = {
         "technique": "deterministic simulation of garbage-collection / finalizer schedules (simulated FinalizationRegistry, model wasm, V8 reachability) over tool-generated JS bindings for seeded bridges, with memory.grow and export-throw faults",
         "level_claimed": {
             "category": "exploration",
-            "text": "Scoped claim: for the JavaScript backend (legacy and spec ABI) the lifetime edges the real tool emits keep alive everything a returned value may borrow from, under every sampled GC schedule. Bridges are generated from VERIF_SEED inside C04's grammar, the real diplomat-tool generates the .mjs, a model wasm plays the most-borrowing Rust body each signature admits (computed independently of Diplomat and validated on every run against feature_tests' annotated ground truth), FinalizationRegistry is replaced by a simulated one so that the trace alone decides where GC points fall and which dead registration is finalized when; V8 decides reachability. Safety oracles at every use of a held wrapper (no lender destroyed/freed), at every export call (no dangling argument) and at every destroy/free (exactly once; a by-reference return that lives inside a lender is never destroyed). Not decided: the upper bound of 'exactly' (over-retention is allowed by the property for backends) and the Dart/Kotlin/nanobind emitters (cannot be executed here).",
+            "text": "Scoped claim: for the JavaScript backend (legacy and spec ABI) the lifetime edges the real tool emits keep alive everything a returned value may borrow from, under every sampled GC schedule. Bridges are generated from VERIF_SEED inside C04's grammar (next to a fixed catalogue of delicate signatures and 'negative' bridges that leave a definition-implied bound implicit), the real diplomat-tool generates the .mjs, a model wasm plays the most-borrowing Rust body each signature admits (computed independently of Diplomat and validated on every run against feature_tests' annotated ground truth), FinalizationRegistry is replaced by a simulated one so that the trace alone decides where GC points fall and which dead registration is finalized when; V8 decides reachability. Per method one directed schedule (distinct inputs, all dropped, GC, all finalizers, use) precedes the random ones. Safety oracles at every use of a held wrapper (no lender destroyed/freed, and the arena / buffer object owning a lender buffer not collected), at every export call (no dangling argument) and at every destroy/free (exactly once; a by-reference return that lives inside a lender is never destroyed). Not decided: the upper bound of 'exactly' (over-retention is allowed by the property for backends) and the Dart/Kotlin/nanobind emitters (cannot be executed here).",
             "design_ref": "DESIGN.md §4",
         },
         "level_note": "Trusted: V8's gc() precision (canary-monitored; imprecision can only hide a premature free), the independent outlives model, the bridge generator staying inside the accepted grammar (tool-rejected bridges are skipped and counted). The wasm side is a model because no wasm32 target is installed.",
@@ -40,7 +40,7 @@ CHECKS = {
         "technique": "deterministic simulation of the diplomat-tool process environment (entropy/clock/pid/heap/cwd/env behind an LD_PRELOAD shim, ASLR off) with seeded edit histories; byte comparison of output trees",
         "level_claimed": {
             "category": "exploration",
-            "text": "Every ambient input of a diplomat-tool process (HashMap seeds via getrandom, clocks, pid, hostname, heap layout, cwd, path spelling, environment, stale output directory) is drawn from the trace and injected through seams, so one trace is one exactly repeatable process execution. Seeded histories of edits (no-op, permute modules, permute type declarations, insert/remove an unreferenced type, insert/remove non-bridge items incl. same-named types) are applied to feature_tests, example and the verification bridge; after each edit all 9 backend configurations are regenerated under a fresh ambient draw and compared byte-for-byte with the reference state (D1 identical, D2 identical, D3 other types' files identical and removal restores the tree, D4 identical). Violations are minimised to the needed edits and the responsible ambient dimension. Sampling, not proof.",
+            "text": "Every ambient input of a diplomat-tool process (HashMap seeds via getrandom, clocks, pid, hostname, heap layout, cwd, path spelling, environment, stale output directory) is drawn from the trace and injected through seams, so one trace is one exactly repeatable process execution. Seeded histories of edits (no-op, permute modules, permute type declarations, insert/remove an unreferenced type (also one that itself uses existing types, reuses their member names, is disabled in one backend, or is a same-named type in another module / namespace), insert/remove non-bridge items incl. same-named types) are applied to feature_tests, example, the verification bridge, a corpus in which every construct is used exactly once, and two generated bridges; after each edit all 11 backend configurations are regenerated under a fresh ambient draw and compared byte-for-byte with the reference state (D1 identical, D2 identical, D3 other types' files identical and removal restores the tree, D4 identical). Violations are minimised to the needed edits and the responsible ambient dimension. Sampling, not proof.",
             "design_ref": "DESIGN.md §6",
         },
         "level_note": "Trusted: the shim reaches the sources it claims (measured per run: getrandom call count, distinct HashMap listing orders; clock/pid/hostname are simulated but not consulted by the tool on this tree). Aggregate files (index.mjs, index.d.ts, lib.g.dart, <lib>_ext.cpp) are exempt from D3 by name. I/O errors are not simulated.",
